@@ -554,7 +554,7 @@ var codeLower = map[uint16]bool{}
 
 func init() {
 	for t, v := range rfcLower {
-		if v && t != 30 && t != 38 && t != 46 {
+		if v && t != 38 && t != 46 { // A6 has no Go type, RRSIG is never the covered type
 			codeLower[t] = true
 		}
 	}
